@@ -221,7 +221,7 @@ pub fn gen_cfg(rng: &mut Rng, prop: u32, kind_fixed: Option<Kind>) -> RunCfg {
     let (universe, len) = if thorough() && !light() && hasher != HasherKind::Collide && rng.chance(1, 25) { (universe.max(200 + rng.below(1300) as u32), 200 + rng.usize(500)) } else { (universe, len) };
     // big regime: thousands of elements, loaded in bulk by the first step, so that code which
     // switches strategy at some size (64, 512, 1024 …) is exercised on both sides of it
-    let (universe, len) = if !light() && hasher != HasherKind::Collide && rng.chance(1, if thorough() { 400 } else { 800 }) {
+    let (universe, len) = if !light() && hasher != HasherKind::Collide && rng.chance(1, if thorough() { 2000 } else { 800 }) {
         let u = match rng.below(4) {
             0 => *rng.pick(&[511u32, 512, 513, 1023, 1024, 1025, 2047, 2048, 2049, 4095, 4096, 4097]),
             1 => 500 + rng.below(600) as u32,
